@@ -62,7 +62,7 @@ TEXT = {
             "Json()/FormattedJson() decode with encoding/json, are equal as documents and equal the in-memory matches.",
             "exact string equality only for valid UTF-8"),
     "C18": ("cross-product testing of the built CLI against the library",
-            "Flag vectors (8 960 in the thorough tier, 800 sampled in quick) x programs x file sets x 2 fixtures run as subprocesses of the freshly built binary; exit status, stdout JSON, JSON files (also pre-existing longer ones) and file effects compared with the library.",
+            "Flag vectors (13 440 in the thorough tier, 800 sampled in quick) x programs x file sets x 2 fixtures run as subprocesses of the freshly built binary; exit status, stdout JSON, JSON files (also pre-existing longer ones) and file effects compared with the library.",
             "local filesystem; subprocess of the freshly built binary"),
     "C19": ("randomised concurrent job sets under the race detector with a sequential oracle",
             "Generated goroutine job sets of Compile/Run calls, repeated under -race with GOMAXPROCS in {2,16}; results equal sequential results and no race is reported.",
